@@ -65,7 +65,6 @@ Inductive ReachC7 : url -> Prop :=
     apply_op dbg hp hpo hd u o = Some u' -> nlen (ser u') <= U32_MAX_P -> ReachC7 u'
 | RC7_step_file u o u' :                    (* NEW: the query / fragment setters on a file record *)
     ReachC7 u -> is_file u = true -> file_tail_op o = true -> op_args_ok o ->
-    known_step3 dbg hp hpo hd u o = false ->      (* computable; none of the known classes contains these four operations *)
     apply_op dbg hp hpo hd u o = Some u' -> nlen (ser u') <= U32_MAX_P -> ReachC7 u'
 | RC7_qpm u ops u' :                        (* file records included *)
     ReachC7 u -> Forall op_ok ops -> query_pairs_session dbg u ops = Some u' ->
@@ -128,7 +127,7 @@ Theorem ReachC7_CanonF u : ReachC7 u -> CanonF u.
 Proof using HOK HNE HW HRT HAb.
   induction 1 as [ovr input u Hu Hp Hk | ovr b input u Hr IH Hf Hu Ht Hp | ovr b input u Hr IH Hf Hu Ht Hp
                  | ovr b input u Hr Hu Ht Hp | ovr b input u Hr IH Hf Hu Ht Hp
-                 | u o u' Hr IH Hf Ha Hk Ho Hb | u o u' Hr IH Hf Ht Ha Hk Ho Hb | u ops u' Hr IH Hops Hs Hb].
+                 | u o u' Hr IH Hf Ha Hk Ho Hb | u o u' Hr IH Hf Ht Ha Ho Hb | u ops u' Hr IH Hops Hs Hb].
   - exact (parse_CanonF ovr input u Hu Hp Hk).
   - left. exact (join_rel_Canon_g dbg hp hpo hd HRT HAb ovr b input u (CanonF_nonfile b IH Hf) Hu Ht Hp).
   - left. exact (join_nonfile_Canon_g dbg hp hpo hd HRT HAb ovr b input u (CanonF_nonfile b IH Hf) Hu Ht Hp).
@@ -150,19 +149,28 @@ Theorem reach_partial7 u : ReachC7 u ->
   Fixpoint_of_reparse dbg hp hpo hd u /\ wf_b u = true /\ ascii (ser u).
 Proof using HOK HNE HW HRT HAb. intros H. exact (CanonF_fixpoint u (ReachC7_CanonF u H)). Qed.
 
+(* the file-record operations of RC7_step_file are in no known step class *)
+Lemma file_tail_op_unknown u o : file_tail_op o = true -> known_step3 dbg hp hpo hd u o = false.
+Proof.
+  destruct o; try discriminate; intros _;
+    unfold known_step3, known_step2, known_step, Known_F_C03_5, Known_F_C02_3, Known_F_C02_2, Known_F_C02_8, Known_F_C02_4,
+      Known_F_C02_9, Known_F_C02_10;
+    cbn [is_host_or_path_op andb orb]; rewrite andb_false_r; reflexivity.
+Qed.
+
 Theorem ReachC7_Reachable4 u : ReachC7 u -> Reachable4 dbg hp hpo hd u.
 Proof using HOK HNE HW HRT HAb.
   intros H. pose proof (CanonF_not_drive u (ReachC7_CanonF u H)) as Hd. revert Hd.
   induction H as [ovr input u Hu Hp Hk | ovr b input u Hr IH Hf Hu Ht Hp | ovr b input u Hr IH Hf Hu Ht Hp
                  | ovr b input u Hr Hu Ht Hp | ovr b input u Hr IH Hf Hu Ht Hp
-                 | u o u' Hr IH Hf Ha Hk Ho Hb | u o u' Hr IH Hf Ht Ha Hk Ho Hb | u ops u' Hr IH Hops Hs Hb]; intros Hd.
+                 | u o u' Hr IH Hf Ha Hk Ho Hb | u o u' Hr IH Hf Ht Ha Ho Hb | u ops u' Hr IH Hops Hs Hb]; intros Hd.
   - exact (R4_parse dbg hp hpo hd ovr input u Hu Hp Hk).
   - exact (R4_join dbg hp hpo hd ovr b input u (IH (CanonF_not_drive b (ReachC7_CanonF b Hr))) Hu Hp Hd).
   - exact (R4_join dbg hp hpo hd ovr b input u (IH (CanonF_not_drive b (ReachC7_CanonF b Hr))) Hu Hp Hd).
   - exact (R4_join dbg hp hpo hd ovr b input u Hr Hu Hp Hd).
   - exact (R4_join dbg hp hpo hd ovr b input u (IH (CanonF_not_drive b (ReachC7_CanonF b Hr))) Hu Hp Hd).
   - exact (R4_step dbg hp hpo hd u o u' (IH (CanonF_not_drive u (ReachC7_CanonF u Hr))) Ha Hk Ho Hd).
-  - exact (R4_step dbg hp hpo hd u o u' (IH (CanonF_not_drive u (ReachC7_CanonF u Hr))) Ha Hk Ho Hd).
+  - exact (R4_step dbg hp hpo hd u o u' (IH (CanonF_not_drive u (ReachC7_CanonF u Hr))) Ha (file_tail_op_unknown u o Ht) Ho Hd).
   - exact (R4_qpm dbg hp hpo hd u ops u' (IH (CanonF_not_drive u (ReachC7_CanonF u Hr))) Hops Hs Hd).
 Qed.
 
